@@ -36,7 +36,7 @@ def regression_cases(prop=None):
     try:
         for f in json.load(open(os.path.join(E.VERIF, "known_findings.json"))):
             w = f.get("witness", {})
-            if "input" in w and "dialect" in w and (prop is None or prop in f.get("properties", [f.get("property")])):
+            if f.get("status") == "fixed" and "input" in w and "dialect" in w and (prop is None or prop in f.get("properties", [f.get("property")])):
                 out.append((w["dialect"], w["input"]))
     except Exception:
         pass
